@@ -28,3 +28,11 @@ claim("C06", "other", "must-pass-through pairing of slot writes with position re
       "Does NOT decide that reported offsets are right for every history (follows from these rules plus array semantics, not checked).",
       BASE_NOTE,
       "DESIGN.md section 3, C06")
+claim("C10", "other", "typestate dataflow (cursor validation), store classification with must-precede invalidation, mirror pairing, must-pass-through",
+      "Decides structural necessary conditions: in package mlink every access to the links through a cursor's current position is preceded on all paths by a validation of that "
+      "very position (so a stale cursor panics, never hangs or edits), the validator tests exactly the marker the detach sites write, every link store that drops entries is "
+      "preceded by their invalidation, mlink.Queue re-seats its cached tail cursor whenever the entry it hangs on can be detached and pairs each size change with exactly one "
+      "insert/remove/clear; in package ring every next-link write has its mirror prev-link write in the same block; Each iterators stop when told. Does NOT decide that the "
+      "resulting sequences or cycles are the documented ones, Stack behaviour beyond Each, or termination of ring walks.",
+      BASE_NOTE + " Assumes iteration callbacks do not mutate the container.",
+      "DESIGN.md section 3, C10")
